@@ -31,7 +31,7 @@ REQUIRED = [
     ("liquid/extra/tags/macro_tag.py", "CallNode.render_to_output"),
     ("liquid/ast.py", "Node.raise_for_disabled"),
 ]
-MIN_COUNTERS = {"copy_hook_checks": 200, "disabled_include_probes": 5}
+MIN_COUNTERS = {"copy_hook_checks": 200, "disabled_include_probes": 50, "disabled_include_probes_nested": 30, "variants_with_call_inside_caller_loop": 200}
 
 HOOK: dict[str, Any] = {"copies": 0, "leak": None}
 
@@ -79,6 +79,12 @@ class MonEnv(Environment):
 
 
 NAMES = ["a", "b", "c", "x", "n"]
+WRAP = {
+    "if": "{% if true %}@{% endif %}", "else": "{% if false %}{% else %}@{% endif %}", "unless": "{% unless false %}@{% endunless %}", "for": "{% for i in (1..1) %}@{% endfor %}",
+    "case": "{% case 1 %}{% when 1 %}@{% endcase %}", "capture": "{% capture cc %}@{% endcapture %}{{ cc }}", "liquid": "{% liquid\n if true\n  include 'q'\n endif\n%}",
+    "tablerow": "{% tablerow i in (1..1) %}@{% endtablerow %}", "with": "{% with zz: 1 %}@{% endwith %}", "ifchanged": "{% ifchanged %}@{% endifchanged %}",
+    "forelse": "{% for i in nothing %}{% else %}@{% endfor %}",
+}
 OPEN, CLOSE = "«", "»"
 
 
@@ -135,10 +141,10 @@ def judge(ctx: core.Ctx, case: dict[str, Any]) -> None:
             b = "" if empty else body
             if kind == "render":
                 partials = {"p": OPEN + b + CLOSE, "q": "inner"}
-                src = caller_src(variant, case["call"], case["mid_loop"])
+                src = caller_src(variant, case["call"], variant.get("mid_loop", case["mid_loop"]))
             else:
                 partials = {"q": "inner"}
-                src = "{% macro 'm' p0, p1: 'D' %}" + OPEN + b + CLOSE + "{% endmacro %}" + caller_src(variant, case["call"], case["mid_loop"])
+                src = "{% macro 'm' p0, p1: 'D' %}" + OPEN + b + CLOSE + "{% endmacro %}" + caller_src(variant, case["call"], variant.get("mid_loop", case["mid_loop"]))
             env = drv.make_env({"extra": True}, loader=DictLoader(partials), base=MonEnv)
             HOOK.update(copies=0, leak=None)
             o = drv.parse_and_render(env, src, data, use_async=case.get("async", False) and vi % 2 == 1)
@@ -166,13 +172,20 @@ def judge(ctx: core.Ctx, case: dict[str, Any]) -> None:
             probes[(vi, "full")] = tail
             segs[vi] = (inner, src)
     ref_inner, ref_src = segs[0]
+    ref_loop = case["variants"][0].get("mid_loop", case["mid_loop"])
     for vi, (inner, src) in segs.items():
-        if inner != ref_inner:
+        # a variant may put the call inside a caller loop over two items (or not): the call's segments then simply repeat
+        v_loop = case["variants"][vi].get("mid_loop", case["mid_loop"])
+        once_ref = ref_inner[: len(ref_inner) // 2] if ref_loop else ref_inner
+        expect = once_ref * (2 if v_loop else 1)
+        if v_loop:
+            ctx.count("variants_with_call_inside_caller_loop")
+        if inner != expect:
             reads = sorted({op[1] for op in case["body"] if op[0] in ("read", "if", "filter")})
             ctx.evaluations += 1
             ctx.violation(
                 f"{kind}:output-depends-on-caller-locals:{case['call_kind']}",
-                f"partial output changed with the caller's locals only: {ref_inner!r} ({ref_src!r:.200}) vs {inner!r} ({src!r:.200}); body reads {reads}",
+                f"partial output changed with the caller's locals only: expected {expect!r} (from {ref_src!r:.200}) but got {inner!r} ({src!r:.200}); body reads {reads}",
                 {"body": body},
             )
             return
@@ -186,12 +199,21 @@ def judge(ctx: core.Ctx, case: dict[str, Any]) -> None:
             return
     # include inside a rendered partial / macro must be refused
     if kind == "render" and case.get("probe_disabled"):
-        env = drv.make_env({"extra": True}, loader=DictLoader({"p": "x{% include 'q' %}", "q": "inner"}), base=MonEnv)
-        o = drv.parse_and_render(env, "{% render 'p' %}", {})
+        wrappers = case.get("include_wrappers") or []
+        inc = "{% include 'q' %}"
+        for w in wrappers:
+            inc = WRAP[w].replace("@", inc)
+        env = drv.make_env({"extra": True}, loader=DictLoader({"p": "x" + inc, "q": "inner", "mid": "{% render 'p' %}"}), base=MonEnv)
+        o = drv.parse_and_render(env, case.get("include_call") or "{% render 'p' %}", {"items": [1, 2]}, use_async=case.get("async", False))
         ctx.count("disabled_include_probes")
+        if wrappers:
+            ctx.count("disabled_include_probes_nested")
         if o.ok or o.err_class != "DisabledTagError":
             ctx.evaluations += 1
-            ctx.violation("render:include-not-disabled", f"include inside a rendered partial gave {o.brief()} instead of DisabledTagError")
+            ctx.violation(
+                "render:include-not-disabled" + (":nested-in-block" if wrappers else ""),
+                f"include inside a rendered partial ({'x' + inc!r}, called by {case.get('include_call')!r}) gave {o.brief()} instead of DisabledTagError",
+            )
             return
     binds = {n for v in case["variants"] for n, _, _ in v["binds"]} | {n for v in case["variants"] for n, _ in v.get("withs", [])}
     reads = {op[1] for op in case["body"] if op[0] in ("read", "if", "filter")}
@@ -219,7 +241,8 @@ def gen_body(rng, depth=0) -> list:
         elif r < 0.9:
             ops.append(["filter", n])
         elif depth < 1:
-            ops.append(["loop", rng.choice(["c", "x"]), gen_body(rng, depth + 1)])
+            inner = gen_body(rng, depth + 1) if rng.random() < 0.5 else []
+            ops.append(["loop", rng.choice(["c", "x", "i"]), inner + [["read", "forloop.index"], ["read", "forloop.parentloop.index"], ["read", "forloop.parentloop.length"], ["if", "forloop.parentloop"]]])
     ops += [["read", "a"], ["read", "c"], ["read", "forloop.index"], ["read", "forloop.parentloop.index"]]
     return ops
 
@@ -235,7 +258,7 @@ def gen_variant(rng) -> dict[str, Any]:
         elif r < 0.6 and n in ("n", "a"):
             binds.append([n, "incr", "i" * rng.randint(1, 3)])
     withs = [[rng.choice(["x", "a", "b"]), f"W{rng.randint(1, 99)}"]] if rng.random() < 0.4 else []
-    return {"binds": binds, "withs": withs, "loopvar": rng.choice(["c", "x", "i"])}
+    return {"binds": binds, "withs": withs, "loopvar": rng.choice(["c", "x", "i"]), "mid_loop": rng.random() < 0.5}
 
 
 def gen_case(rng) -> dict[str, Any]:
@@ -251,9 +274,13 @@ def gen_case(rng) -> dict[str, Any]:
     for n in NAMES:
         if rng.random() < 0.3:
             globals_[n] = f"GLOBAL_{n}"
-    variants = [{"binds": [], "withs": [], "loopvar": "c"}] + [gen_variant(rng) for _ in range(5)]
+    variants = [{"binds": [], "withs": [], "loopvar": "c", "mid_loop": False}] + [gen_variant(rng) for _ in range(5)]
+    nw = rng.choice([0, 1, 1, 2])
+    wrappers = [rng.choice(list(WRAP)) for _ in range(nw)]
     return {"kind": kind, "call_kind": ck, "call": call, "body": gen_body(rng), "mid_loop": rng.random() < 0.5, "globals": globals_, "variants": variants,
-            "probe_disabled": rng.random() < 0.05, "async": rng.random() < 0.3}
+            "probe_disabled": rng.random() < 0.25, "include_wrappers": wrappers,
+            "include_call": rng.choice(["{% render 'p' %}", "{% render 'p' for items %}", "{% render 'mid' %}", "{% for i in (1..2) %}{% render 'p' with i as v %}{% endfor %}"]),
+            "async": rng.random() < 0.3}
 
 
 def cases(ctx: core.Ctx):
